@@ -155,6 +155,15 @@ def load_known():
     return known, fixed
 
 
+def _engine_assumptions():
+    """Assumptions the kernel interpreter made while summarising (each is logged where it is made): part of what the verdict rests on."""
+    import sys
+    m = sys.modules.get("mtsa.kern.interp")
+    if m is None:
+        return []
+    return ["engine: " + a for a in m.engine_assumptions()][:40]
+
+
 def finish(ctx, level, explanation, assumptions, t0, extra_cov=None):
     known, _fixed = load_known()
     real, kf = [], []
@@ -203,7 +212,7 @@ def finish(ctx, level, explanation, assumptions, t0, extra_cov=None):
         "seed": ctx.seed,
         "level": level,
         "coverage": cov,
-        "assumptions": assumptions,
+        "assumptions": list(assumptions) + _engine_assumptions(),
         "wall_s": round(time.time() - t0, 3),
         "violations": len(real),
     }
